@@ -934,6 +934,9 @@ func (fb *functionBuilder) emitText(txt []byte, inURL, isURLSet bool) {
 		}
 		fb.flushText()
 	}
+	if len(fb.fn.Text) == maxTextsCount {
+		panic(newLimitExceededError(fb.fn.Pos, fb.path, "texts count exceeded %d", maxTextsCount))
+	}
 	fb.text.addr = fb.currentAddr()
 	fb.text.txt = append(fb.text.txt, txt)
 	fb.text.inURL = inURL
